@@ -20,54 +20,54 @@ Lemma wrapu64_is_wrap z : wrapu64 z = wrap U64 z.
 Proof. reflexivity. Qed.
 
 (** ** preCheck: nonce too high / too low *)
-Lemma src_nonce_high n mn : mainchain_blockchain__StateTransition_preCheck__if1 n mn = (n <? mn).
+Lemma src_nonce_high n mn : mainchain_blockchain__StateTransition_preCheck__if_nonce_lt_st_msg_Nonce n mn = (n <? mn).
 Proof. reflexivity. Qed.
-Lemma src_nonce_low n mn : mainchain_blockchain__StateTransition_preCheck__if2 n mn = (mn <? n).
-Proof. unfold mainchain_blockchain__StateTransition_preCheck__if2. apply Z.gtb_ltb. Qed.
+Lemma src_nonce_low n mn : mainchain_blockchain__StateTransition_preCheck__if_nonce_gt_st_msg_Nonce n mn = (mn <? n).
+Proof. unfold mainchain_blockchain__StateTransition_preCheck__if_nonce_gt_st_msg_Nonce. apply Z.gtb_ltb. Qed.
 Lemma src_nonce_atoms :
-  mainchain_blockchain__StateTransition_preCheck__if1_atoms = ["nonce : uint64"; "st.msg.Nonce() : uint64"]%string
-  /\ mainchain_blockchain__StateTransition_preCheck__if2_atoms = ["nonce : uint64"; "st.msg.Nonce() : uint64"]%string.
+  mainchain_blockchain__StateTransition_preCheck__if_nonce_lt_st_msg_Nonce_atoms = ["nonce : uint64"; "st.msg.Nonce() : uint64"]%string
+  /\ mainchain_blockchain__StateTransition_preCheck__if_nonce_gt_st_msg_Nonce_atoms = ["nonce : uint64"; "st.msg.Nonce() : uint64"]%string.
 Proof. split; reflexivity. Qed.
 
 (** ** buyGas: balance.Cmp(gas*price) < 0, pool.SubGas, st.gas += gas *)
-Lemma src_funds b mgval : mainchain_blockchain__StateTransition_buyGas__if1 (cmp_int b mgval) = (b <? mgval).
+Lemma src_funds b mgval : mainchain_blockchain__StateTransition_buyGas__if_st_state_GetBalance_st_msg_From__Cmp_mgval_lt_0 (cmp_int b mgval) = (b <? mgval).
 Proof.
-  unfold mainchain_blockchain__StateTransition_buyGas__if1, cmp_int, Z.ltb.
+  unfold mainchain_blockchain__StateTransition_buyGas__if_st_state_GetBalance_st_msg_From__Cmp_mgval_lt_0, cmp_int, Z.ltb.
   destruct (b ?= mgval); reflexivity.
 Qed.
 Lemma src_funds_atoms :
-  mainchain_blockchain__StateTransition_buyGas__if1_atoms = ["st.state.GetBalance(st.msg.From()).Cmp(mgval) : int"]%string.
+  mainchain_blockchain__StateTransition_buyGas__if_st_state_GetBalance_st_msg_From__Cmp_mgval_lt_0_atoms = ["st.state.GetBalance(st.msg.From()).Cmp(mgval) : int"]%string.
 Proof. reflexivity. Qed.
 Lemma src_gas0 g0 g : mainchain_blockchain__StateTransition_buyGas__set_gas_op g0 g = wrapu64 (g0 + g).
 Proof. reflexivity. Qed.
-Lemma src_subgas_guard pool amount : in_range U64 pool -> types__GasPool_SubGas__if1 pool amount = (pool <? amount).
-Proof. intros H. unfold types__GasPool_SubGas__if1, go_conv. rewrite wrap_id by exact H. reflexivity. Qed.
+Lemma src_subgas_guard pool amount : in_range U64 pool -> types__GasPool_SubGas__if_uint64_mul_gp_lt_amount pool amount = (pool <? amount).
+Proof. intros H. unfold types__GasPool_SubGas__if_uint64_mul_gp_lt_amount, go_conv. rewrite wrap_id by exact H. reflexivity. Qed.
 Lemma src_subgas pool amount : in_range U64 pool -> in_range U64 amount -> amount <= pool ->
   types__GasPool_SubGas__assign_op pool amount = pool - amount.
 Proof. intros Hp Ha Hle. unfold types__GasPool_SubGas__assign_op, go_sub. apply wrap_id. unfold in_range in *. lia. Qed.
 
 (** ** TransitionDb: intrinsic gas check, value transfer check *)
-Lemma src_intrinsic_guard g ig : mainchain_blockchain__StateTransition_TransitionDb__if1 g ig = (g <? ig).
+Lemma src_intrinsic_guard g ig : mainchain_blockchain__StateTransition_TransitionDb__if_st_gas_lt_gas g ig = (g <? ig).
 Proof. reflexivity. Qed.
 Lemma src_gas1 g ig : mainchain_blockchain__StateTransition_TransitionDb__set_gas_op g ig = wrapu64 (g - ig).
 Proof. reflexivity. Qed.
 Lemma src_transfer_guard v can :
-  mainchain_blockchain__StateTransition_TransitionDb__if2 (sign_int v) can = ((0 <? v) && negb can)%bool.
+  mainchain_blockchain__StateTransition_TransitionDb__if_msg_Value__Sign_gt_0_and_not_st_vm_CanTransfer_st_state_msg__a8dc9f8a (sign_int v) can = ((0 <? v) && negb can)%bool.
 Proof.
-  unfold mainchain_blockchain__StateTransition_TransitionDb__if2, sign_int, cmp_int. f_equal.
+  unfold mainchain_blockchain__StateTransition_TransitionDb__if_msg_Value__Sign_gt_0_and_not_st_vm_CanTransfer_st_state_msg__a8dc9f8a, sign_int, cmp_int. f_equal.
   rewrite Z.gtb_ltb. unfold Z.ltb at 2. rewrite (Z.compare_antisym v 0).
   destruct (v ?= 0); reflexivity.
 Qed.
 Lemma src_transfer_atoms :
-  mainchain_blockchain__StateTransition_TransitionDb__if2_atoms
+  mainchain_blockchain__StateTransition_TransitionDb__if_msg_Value__Sign_gt_0_and_not_st_vm_CanTransfer_st_state_msg__a8dc9f8a_atoms
   = ["msg.Value().Sign() : int"; "st.vm.CanTransfer(st.state, msg.From(), msg.Value()) : bool"]%string.
 Proof. reflexivity. Qed.
 
 (** ** refundGas *)
-Lemma src_gas_used i g : mainchain_blockchain__StateTransition_gasUsed__ret1 i g = wrapu64 (i - g).
+Lemma src_gas_used i g : mainchain_blockchain__StateTransition_gasUsed__ret_st_initialGas_minus_st_gas i g = wrapu64 (i - g).
 Proof. reflexivity. Qed.
 Lemma src_gas_used_atoms :
-  mainchain_blockchain__StateTransition_gasUsed__ret1_atoms = ["st.initialGas : uint64"; "st.gas : uint64"]%string.
+  mainchain_blockchain__StateTransition_gasUsed__ret_st_initialGas_minus_st_gas_atoms = ["st.initialGas : uint64"; "st.gas : uint64"]%string.
 Proof. reflexivity. Qed.
 Lemma src_refund0 u : in_range U64 u ->
   mainchain_blockchain__StateTransition_refundGas__set_refund u = u / refund_quotient.
@@ -76,17 +76,17 @@ Proof.
   unfold in_range in H. rewrite Z.quot_div_nonneg by lia. apply wrap_id. unfold in_range.
   pose proof (Z.div_pos u 2). pose proof (Z.div_le_upper_bound u 2 u). lia.
 Qed.
-Lemma src_refund_cap r0 sr : mainchain_blockchain__StateTransition_refundGas__if1 r0 sr = (sr <? r0).
-Proof. unfold mainchain_blockchain__StateTransition_refundGas__if1. apply Z.gtb_ltb. Qed.
+Lemma src_refund_cap r0 sr : mainchain_blockchain__StateTransition_refundGas__if_refund_gt_st_state_GetRefund r0 sr = (sr <? r0).
+Proof. unfold mainchain_blockchain__StateTransition_refundGas__if_refund_gt_st_state_GetRefund. apply Z.gtb_ltb. Qed.
 Lemma src_refund_cap_atoms :
-  mainchain_blockchain__StateTransition_refundGas__if1_atoms = ["refund : uint64"; "st.state.GetRefund() : uint64"]%string.
+  mainchain_blockchain__StateTransition_refundGas__if_refund_gt_st_state_GetRefund_atoms = ["refund : uint64"; "st.state.GetRefund() : uint64"]%string.
 Proof. reflexivity. Qed.
 Lemma src_gas3 g r : mainchain_blockchain__StateTransition_refundGas__set_gas_op g r = wrapu64 (g + r).
 Proof. reflexivity. Qed.
 Lemma src_addgas_guard pool amount : in_range U64 pool -> in_range U64 amount ->
-  types__GasPool_AddGas__if1 pool amount = (max_u64 - amount <? pool).
+  types__GasPool_AddGas__if_uint64_mul_gp_gt_math_MaxUint64_minus_amount pool amount = (max_u64 - amount <? pool).
 Proof.
-  intros Hp Ha. unfold types__GasPool_AddGas__if1, go_conv, go_sub, max_u64, two64.
+  intros Hp Ha. unfold types__GasPool_AddGas__if_uint64_mul_gp_gt_math_MaxUint64_minus_amount, go_conv, go_sub, max_u64, two64.
   rewrite (wrap_id U64 pool) by exact Hp.
   rewrite wrap_id by (unfold in_range in *; lia). rewrite Z.gtb_ltb. reflexivity.
 Qed.
@@ -94,26 +94,26 @@ Lemma src_addgas pool amount : types__GasPool_AddGas__assign_op pool amount = wr
 Proof. reflexivity. Qed.
 
 (** ** IntrinsicGas *)
-Lemma src_ig_nonempty n : mainchain_tx_pool__IntrinsicGas__if1 (Z.of_nat n) = (0 <? Z.of_nat n).
-Proof. unfold mainchain_tx_pool__IntrinsicGas__if1. apply Z.gtb_ltb. Qed.
-Lemma src_ig_nz_byte b : mainchain_tx_pool__IntrinsicGas__if2 (Z.of_N b) = negb (N.eqb b 0).
+Lemma src_ig_nonempty n : mainchain_tx_pool__IntrinsicGas__if_len_data_gt_0 (Z.of_nat n) = (0 <? Z.of_nat n).
+Proof. unfold mainchain_tx_pool__IntrinsicGas__if_len_data_gt_0. apply Z.gtb_ltb. Qed.
+Lemma src_ig_nz_byte b : mainchain_tx_pool__IntrinsicGas__if_byt_ne_0 (Z.of_N b) = negb (N.eqb b 0).
 Proof.
-  unfold mainchain_tx_pool__IntrinsicGas__if2, go_neqb. f_equal.
+  unfold mainchain_tx_pool__IntrinsicGas__if_byt_ne_0, go_neqb. f_equal.
   destruct (N.eqb_spec b 0); destruct (Z.eqb_spec (Z.of_N b) 0); try reflexivity; lia.
 Qed.
-Lemma src_ig_nz_overflow q nz : mainchain_tx_pool__IntrinsicGas__if3 q nz = (q <? nz).
+Lemma src_ig_nz_overflow q nz : mainchain_tx_pool__IntrinsicGas__if_math_MaxUint64_minus_gas_div_nonZeroGas_lt_nz q nz = (q <? nz).
 Proof. reflexivity. Qed.
 Lemma src_ig_nz_overflow_atoms :
-  mainchain_tx_pool__IntrinsicGas__if3_atoms = ["(math.MaxUint64 - gas) / nonZeroGas : uint64"; "nz : uint64"]%string.
+  mainchain_tx_pool__IntrinsicGas__if_math_MaxUint64_minus_gas_div_nonZeroGas_lt_nz_atoms = ["(math.MaxUint64 - gas) / nonZeroGas : uint64"; "nz : uint64"]%string.
 Proof. reflexivity. Qed.
 Lemma src_ig_gas1 gas nz k : mainchain_tx_pool__IntrinsicGas__set_gas_op gas nz k = wrapu64 (gas + wrapu64 (nz * k)).
 Proof. reflexivity. Qed.
 Lemma src_ig_z len nz : in_range U64 len -> mainchain_tx_pool__IntrinsicGas__set_z len nz = wrapu64 (wrapu64 len - nz).
 Proof. reflexivity. Qed.
 Lemma src_ig_z_overflow gas z : in_range U64 gas ->
-  mainchain_tx_pool__IntrinsicGas__if4 gas z = ((max_u64 - gas) / tx_data_zero_gas <? z).
+  mainchain_tx_pool__IntrinsicGas__if_math_MaxUint64_minus_gas_div_configs_TxDataZeroGas_lt_z gas z = ((max_u64 - gas) / tx_data_zero_gas <? z).
 Proof.
-  intros H. unfold mainchain_tx_pool__IntrinsicGas__if4, go_quot, go_sub, max_u64, two64, tx_data_zero_gas.
+  intros H. unfold mainchain_tx_pool__IntrinsicGas__if_math_MaxUint64_minus_gas_div_configs_TxDataZeroGas_lt_z, go_quot, go_sub, max_u64, two64, tx_data_zero_gas.
   unfold in_range in H.
   rewrite (wrap_id U64 (18446744073709551615 - gas)) by (unfold in_range; lia).
   rewrite Z.quot_div_nonneg by lia.
@@ -121,7 +121,7 @@ Proof.
   pose proof (Z.div_pos (18446744073709551615 - gas) 4).
   pose proof (Z.div_le_upper_bound (18446744073709551615 - gas) 4 (18446744073709551615 - gas)). lia.
 Qed.
-Lemma src_ig_gas2 gas z : mainchain_tx_pool__IntrinsicGas__set_gas_op2 gas z = wrapu64 (gas + wrapu64 (z * tx_data_zero_gas)).
+Lemma src_ig_gas2 gas z : mainchain_tx_pool__IntrinsicGas__set_gas_op_2 gas z = wrapu64 (gas + wrapu64 (z * tx_data_zero_gas)).
 Proof. reflexivity. Qed.
 
 (** ** lib/math: SafeAdd/SafeSub/SafeMul = exact result mod 2^64 + overflow flag *)
@@ -154,34 +154,34 @@ Qed.
 
 (** ** the whole tie as one statement (quoted by Properties.v) *)
 Definition C09_source_tie_statement : Prop :=
-  (forall n mn, mainchain_blockchain__StateTransition_preCheck__if1 n mn = (n <? mn))
-  /\ (forall n mn, mainchain_blockchain__StateTransition_preCheck__if2 n mn = (mn <? n))
-  /\ (forall b mg, mainchain_blockchain__StateTransition_buyGas__if1 (cmp_int b mg) = (b <? mg))
+  (forall n mn, mainchain_blockchain__StateTransition_preCheck__if_nonce_lt_st_msg_Nonce n mn = (n <? mn))
+  /\ (forall n mn, mainchain_blockchain__StateTransition_preCheck__if_nonce_gt_st_msg_Nonce n mn = (mn <? n))
+  /\ (forall b mg, mainchain_blockchain__StateTransition_buyGas__if_st_state_GetBalance_st_msg_From__Cmp_mgval_lt_0 (cmp_int b mg) = (b <? mg))
   /\ (forall g0 g, mainchain_blockchain__StateTransition_buyGas__set_gas_op g0 g = wrapu64 (g0 + g))
-  /\ (forall pool a, in_range U64 pool -> types__GasPool_SubGas__if1 pool a = (pool <? a))
+  /\ (forall pool a, in_range U64 pool -> types__GasPool_SubGas__if_uint64_mul_gp_lt_amount pool a = (pool <? a))
   /\ (forall pool a, in_range U64 pool -> in_range U64 a -> a <= pool -> types__GasPool_SubGas__assign_op pool a = pool - a)
-  /\ (forall g ig, mainchain_blockchain__StateTransition_TransitionDb__if1 g ig = (g <? ig))
+  /\ (forall g ig, mainchain_blockchain__StateTransition_TransitionDb__if_st_gas_lt_gas g ig = (g <? ig))
   /\ (forall g ig, mainchain_blockchain__StateTransition_TransitionDb__set_gas_op g ig = wrapu64 (g - ig))
-  /\ (forall v can, mainchain_blockchain__StateTransition_TransitionDb__if2 (sign_int v) can = ((0 <? v) && negb can)%bool)
-  /\ (forall i g, mainchain_blockchain__StateTransition_gasUsed__ret1 i g = wrapu64 (i - g))
+  /\ (forall v can, mainchain_blockchain__StateTransition_TransitionDb__if_msg_Value__Sign_gt_0_and_not_st_vm_CanTransfer_st_state_msg__a8dc9f8a (sign_int v) can = ((0 <? v) && negb can)%bool)
+  /\ (forall i g, mainchain_blockchain__StateTransition_gasUsed__ret_st_initialGas_minus_st_gas i g = wrapu64 (i - g))
   /\ (forall u, in_range U64 u -> mainchain_blockchain__StateTransition_refundGas__set_refund u = u / refund_quotient)
-  /\ (forall r0 sr, mainchain_blockchain__StateTransition_refundGas__if1 r0 sr = (sr <? r0))
+  /\ (forall r0 sr, mainchain_blockchain__StateTransition_refundGas__if_refund_gt_st_state_GetRefund r0 sr = (sr <? r0))
   /\ (forall g r, mainchain_blockchain__StateTransition_refundGas__set_gas_op g r = wrapu64 (g + r))
-  /\ (forall pool a, in_range U64 pool -> in_range U64 a -> types__GasPool_AddGas__if1 pool a = (max_u64 - a <? pool))
+  /\ (forall pool a, in_range U64 pool -> in_range U64 a -> types__GasPool_AddGas__if_uint64_mul_gp_gt_math_MaxUint64_minus_amount pool a = (max_u64 - a <? pool))
   /\ (forall pool a, types__GasPool_AddGas__assign_op pool a = wrapu64 (pool + a))
-  /\ (forall q nz, mainchain_tx_pool__IntrinsicGas__if3 q nz = (q <? nz))
+  /\ (forall q nz, mainchain_tx_pool__IntrinsicGas__if_math_MaxUint64_minus_gas_div_nonZeroGas_lt_nz q nz = (q <? nz))
   /\ (forall gas nz k, mainchain_tx_pool__IntrinsicGas__set_gas_op gas nz k = wrapu64 (gas + wrapu64 (nz * k)))
-  /\ (forall gas z, in_range U64 gas -> mainchain_tx_pool__IntrinsicGas__if4 gas z = ((max_u64 - gas) / tx_data_zero_gas <? z))
-  /\ (forall gas z, mainchain_tx_pool__IntrinsicGas__set_gas_op2 gas z = wrapu64 (gas + wrapu64 (z * tx_data_zero_gas)))
+  /\ (forall gas z, in_range U64 gas -> mainchain_tx_pool__IntrinsicGas__if_math_MaxUint64_minus_gas_div_configs_TxDataZeroGas_lt_z gas z = ((max_u64 - gas) / tx_data_zero_gas <? z))
+  /\ (forall gas z, mainchain_tx_pool__IntrinsicGas__set_gas_op_2 gas z = wrapu64 (gas + wrapu64 (z * tx_data_zero_gas)))
   /\ (forall x y, in_range U64 x -> in_range U64 y -> lib_math__SafeAdd x y = (wrapu64 (x + y), max_u64 <? x + y))
   /\ (forall x y, in_range U64 x -> in_range U64 y -> lib_math__SafeSub x y = (wrapu64 (x - y), x <? y))
   /\ (forall x y, in_range U64 x -> in_range U64 y -> lib_math__SafeMul x y = (wrapu64 (x * y), max_u64 <? x * y))
-  /\ (mainchain_blockchain__StateTransition_buyGas__if1_atoms = ["st.state.GetBalance(st.msg.From()).Cmp(mgval) : int"]%string
-      /\ mainchain_blockchain__StateTransition_preCheck__if1_atoms = ["nonce : uint64"; "st.msg.Nonce() : uint64"]%string
-      /\ mainchain_blockchain__StateTransition_TransitionDb__if1_atoms = ["st.gas : uint64"; "gas : uint64"]%string
+  /\ (mainchain_blockchain__StateTransition_buyGas__if_st_state_GetBalance_st_msg_From__Cmp_mgval_lt_0_atoms = ["st.state.GetBalance(st.msg.From()).Cmp(mgval) : int"]%string
+      /\ mainchain_blockchain__StateTransition_preCheck__if_nonce_lt_st_msg_Nonce_atoms = ["nonce : uint64"; "st.msg.Nonce() : uint64"]%string
+      /\ mainchain_blockchain__StateTransition_TransitionDb__if_st_gas_lt_gas_atoms = ["st.gas : uint64"; "gas : uint64"]%string
       /\ mainchain_blockchain__StateTransition_refundGas__set_refund_atoms = ["st.gasUsed() : uint64"]%string
-      /\ mainchain_blockchain__StateTransition_refundGas__if1_atoms = ["refund : uint64"; "st.state.GetRefund() : uint64"]%string
-      /\ mainchain_blockchain__StateTransition_gasUsed__ret1_atoms = ["st.initialGas : uint64"; "st.gas : uint64"]%string).
+      /\ mainchain_blockchain__StateTransition_refundGas__if_refund_gt_st_state_GetRefund_atoms = ["refund : uint64"; "st.state.GetRefund() : uint64"]%string
+      /\ mainchain_blockchain__StateTransition_gasUsed__ret_st_initialGas_minus_st_gas_atoms = ["st.initialGas : uint64"; "st.gas : uint64"]%string).
 
 Lemma C09_source_tie_proof : C09_source_tie_statement.
 Proof.
